@@ -10,7 +10,7 @@ from vf.chk import And, Or, Not, Implies, Iff, If
 from vf.wcsstub import OpaqueWCS, LabelSky
 
 INCS = [('absent', None), ('False', False), ('0', 0), ('True', True)]
-KINDS = ['circle', 'ellipse', 'rectangle', 'polygon', 'point', 'line', 'text', 'annulus-circle', 'annulus-ellipse',
+KINDS = ['circle', 'ellipse', 'rectangle', 'polygon', 'polygon-origin', 'point', 'line', 'text', 'annulus-circle', 'annulus-ellipse',
          'annulus-rectangle', 'compound']
 
 
@@ -39,6 +39,11 @@ def build_pixel(kind, m, inc, pre='', aunit='deg'):
     if kind in ('ellipse', 'rectangle'):
         cls = R.EllipsePixelRegion if kind == 'ellipse' else R.RectanglePixelRegion
         return cls(PixCoord(cx, cy), m.pos(pre + 'w'), m.pos(pre + 'h'), angle=m.angle(pre + 'theta', aunit), meta=meta, visual=vis)
+    if kind == 'polygon-origin':
+        # vertices given relative to an origin (the constructor adds it once; .vertices are absolute)
+        return R.PolygonPixelRegion(PixCoord(np.array([0.0, m.real(pre + 'ex1'), m.real(pre + 'ex2')], dtype=dt),
+                                             np.array([0.0, m.real(pre + 'ey1'), m.real(pre + 'ey2')], dtype=dt)),
+                                    meta=meta, visual=vis, origin=PixCoord(cx, cy))
     if kind == 'polygon':
         return R.PolygonPixelRegion(PixCoord(np.array([cx, cx + m.real(pre + 'ex1'), cx + m.real(pre + 'ex2')], dtype=dt),
                                              np.array([cy, cy + m.real(pre + 'ey1'), cy + m.real(pre + 'ey2')], dtype=dt)),
